@@ -244,7 +244,7 @@ theorem runDeletes_get_none (mask : Nat → DelOutcome) (acts : List Act) (st : 
         · simp only [hbi, if_false] at h1; exact .inl h1
       · exact .inr ⟨a', List.mem_cons_of_mem _ ha', ht'⟩
 
-/-! ### the worker step under `compact := true`, expiry off -/
+/-! ### the ordinary rules of the worker loop (`workerStep`) under `compact := true` -/
 
 /-- the compaction configuration of C07 -/
 abbrev ccfg (R : Nat) : WCfg := { R := R, compact := true }
@@ -265,18 +265,18 @@ def cA3 (R : Nat) (r : Rec) : List Act :=
 
 theorem workerStep_skip {R : Nat} (p : Prev) {r : Rec} (h : R < r.rev) :
     workerStep (ccfg R) p r = ([], p) := by
-  simp [workerStep, expireStep, h]
+  simp [workerStep, h]
 
 theorem workerStep_fst {R : Nat} (p : Prev) {r : Rec} (h : ¬ R < r.rev) :
     (workerStep (ccfg R) p r).1 = cA1 p r ++ (cA2 r ++ cA3 R r) := by
-  simp only [workerStep, expireStep, Bool.true_or, if_true, gt_iff_lt, h, if_false, Bool.true_and,
+  simp only [workerStep, gt_iff_lt, h, if_false, Bool.true_and,
     scannerRevisionValueLengthWithDeletionFlag, cA1, cA2, cA3, beq_iff_eq, Bool.and_eq_true]
   by_cases h1 : r.rev = 0 <;> by_cases h2 : r.val.length = 9 <;>
     by_cases h3 : R < fromBE (r.val.take 8) <;> simp [h1, h2, h3]
 
 theorem workerStep_snd {R : Nat} (p : Prev) {r : Rec} (h : ¬ R < r.rev) :
     (workerStep (ccfg R) p r).2 = if idxAbove R r then p else ⟨r.key, r.rev, r.val⟩ := by
-  simp only [workerStep, expireStep, Bool.true_or, if_true, gt_iff_lt, h, if_false, Bool.true_and,
+  simp only [workerStep, gt_iff_lt, h, if_false, Bool.true_and,
     scannerRevisionValueLengthWithDeletionFlag, idxAbove, beq_iff_eq, Bool.and_eq_true]
   by_cases h1 : r.rev = 0 <;> by_cases h2 : r.val.length = 9 <;>
     by_cases h3 : R < fromBE (r.val.take 8) <;> simp [h1, h2, h3]
@@ -824,7 +824,7 @@ theorem workerStep_scan (R : Nat) (p : Prev) (r : Rec) :
     workerStep { R := R } p r =
       if R < r.rev then ([], p)
       else (if r.key != p.key then emitPrev p else [], ⟨r.key, r.rev, r.val⟩) := by
-  simp [workerStep, expireStep]
+  simp [workerStep]
 
 /-- `r` is an emittable newest version `≤ R` of its key within `rs` -/
 def Top (R : Nat) (rs : List Rec) (r : Rec) : Prop :=
